@@ -95,6 +95,7 @@ pub struct E1Unit {
     pub lazy: bool,
     /// differential unit: `grammars` holds pairs (2k, 2k+1)
     pub pair_mode: Option<e1::PairMode>,
+    pub clone_mode: bool,
 }
 
 #[derive(Default, Clone, Debug)]
@@ -203,6 +204,7 @@ pub fn run_e1_unit_on(u: &E1Unit, cx: &ShardCtx, inputs: Option<Vec<Vec<Tok>>>) 
         skip: &skip,
         lazy: u.lazy,
         pair_mode: u.pair_mode,
+        clone_mode: u.clone_mode,
     };
     let handled = RUNNERS.get().map(|rs| rs.iter().any(|r| r(u.kind, u.cfg, &job, &mut acc))).unwrap_or(false);
     if !handled {
@@ -252,7 +254,7 @@ pub fn run_e1_unit_on(u: &E1Unit, cx: &ShardCtx, inputs: Option<Vec<Vec<Tok>>>) 
                 json!({
                     "engine": "e1", "unit": u.name, "categories": e1::cat_names(m.mask), "grammar": m.grammar, "input": m.input,
                     "kind": m.kind, "cfg": m.cfg, "probes": [u.probes.span, u.probes.state, u.probes.ctx],
-                    "alarm": u.alarm, "skip_not_content": u.skip_not_content, "lazy": u.lazy, "pair_mode": e1::pair_mode_name(u.pair_mode),
+                    "alarm": u.alarm, "skip_not_content": u.skip_not_content, "lazy": u.lazy, "pair_mode": e1::pair_mode_name(u.pair_mode), "clone_mode": u.clone_mode,
                     "detail": m.detail, "explained_by": m.explained_by,
                 })
             })
